@@ -1,13 +1,14 @@
 //! engeom-verif: executes cases (NDJSON) against the real engeom library and records
 //! projected, quantised observations. No oracle logic lives here: this program only
 //! builds inputs from exact integer descriptions, calls the library and projects results.
-use serde_json::{json, Map, Value};
+use serde_json::{json, Value};
 use std::io::{BufRead, BufReader, BufWriter, Read, Write};
 use std::panic::{catch_unwind, AssertUnwindSafe};
 
 mod util;
 mod angles;
 mod curve;
+mod topo;
 
 pub struct State {
     pub slots: std::collections::HashMap<String, Box<dyn std::any::Any>>,
@@ -24,6 +25,7 @@ fn dispatch(rec: &Value, st: &mut State) -> Value {
     match m {
         "angles" => angles::exec(rec, st),
         "curve" => curve::exec(rec, st),
+        "topo" => topo::exec(rec, st),
         _ => json!({"unknown_module": true}),
     }
 }
@@ -106,24 +108,68 @@ fn main() {
     }
     let fin = BufReader::new(std::fs::File::open(&args[2]).expect("open cases"));
     let mut fout = BufWriter::new(std::fs::File::create(&args[3]).expect("create obs"));
-    let mut st = State::new();
-    let mut n = 0usize;
+    let mut recs: Vec<Value> = Vec::new();
     for line in fin.lines() {
         let line = line.unwrap();
         if line.trim().is_empty() {
             continue;
         }
-        let mut rec: Value = serde_json::from_str(&line).expect("bad case json");
+        recs.push(serde_json::from_str(&line).expect("bad case json"));
+    }
+    let mut outs: Vec<Option<Value>> = vec![None; recs.len()];
+    // watchdog cases are stateless: run them in child processes, several at a time; once too many have
+    // timed out the rest are skipped (no verdict) so that a hanging library cannot stall the whole run
+    {
+        let wd_idx: Vec<usize> = (0..recs.len()).filter(|&k| recs[k].get("wd").and_then(|v| v.as_u64()).is_some()).collect();
+        let next = std::sync::atomic::AtomicUsize::new(0);
+        let timeouts = std::sync::atomic::AtomicUsize::new(0);
+        let max_timeouts: usize = std::env::var("VERIF_MAX_TIMEOUTS").ok().and_then(|s| s.parse().ok()).unwrap_or(24);
+        let results = std::sync::Mutex::new(Vec::<(usize, Value)>::new());
+        let nthreads = 8;
+        std::thread::scope(|sc| {
+            for _ in 0..nthreads {
+                sc.spawn(|| loop {
+                    let j = next.fetch_add(1, std::sync::atomic::Ordering::SeqCst);
+                    if j >= wd_idx.len() {
+                        break;
+                    }
+                    let k = wd_idx[j];
+                    let out = if timeouts.load(std::sync::atomic::Ordering::SeqCst) >= max_timeouts {
+                        json!({"panic": false, "timeout": false, "skipped": true})
+                    } else {
+                        let ms = recs[k]["wd"].as_u64().unwrap();
+                        let o = run_isolated(&recs[k], ms);
+                        if o["timeout"].as_bool().unwrap_or(false) {
+                            timeouts.fetch_add(1, std::sync::atomic::Ordering::SeqCst);
+                        }
+                        o
+                    };
+                    results.lock().unwrap().push((k, out));
+                });
+            }
+        });
+        for (k, o) in results.into_inner().unwrap() {
+            outs[k] = Some(o);
+        }
+    }
+    let mut st = State::new();
+    let mut n = 0usize;
+    for (k, rec) in recs.iter_mut().enumerate() {
         let op = rec["op"].as_str().unwrap_or("").to_string();
-        let out = if op == "reset" {
+        let mut out = if op == "reset" {
             st = State::new();
             json!({"panic": false, "timeout": false})
-        } else if let Some(ms) = rec.get("wd").and_then(|v| v.as_u64()) {
-            run_isolated(&rec, ms)
+        } else if let Some(o) = outs[k].take() {
+            o
         } else {
-            run_one(&rec, &mut st)
+            run_one(rec, &mut st)
         };
-        rec.as_object_mut().unwrap_or(&mut Map::new()).insert("out".into(), out);
+        if let Some(o) = out.as_object_mut() {
+            if !o.contains_key("skipped") {
+                o.insert("skipped".into(), json!(false));
+            }
+        }
+        rec.as_object_mut().unwrap().insert("out".into(), out);
         writeln!(fout, "{}", rec).unwrap();
         n += 1;
     }
